@@ -323,6 +323,15 @@ class Body:
             while grew:
                 grew = False
                 for bl in self.blocks:
+                    # `return helper(..).map(Some)` / `.map_err(..)` / `.into()`: a failure of the receiver is the failure returned
+                    t = bl["term"]
+                    if t and t["k"] == "call" and t["dest"]["l"] in r and not t["dest"]["p"] and t["args"]:
+                        d, rd, ga, fn = callee(t)
+                        if d and re.search(r"Result::<T, E>::(map|map_err|or_else)$|convert::Into::into$|convert::From::from$", d):
+                            x = t["args"][0].get("move") or t["args"][0].get("copy")
+                            if x and not x["p"] and x["l"] not in r:
+                                r.add(x["l"])
+                                grew = True
                     for st in bl["stmts"]:
                         if st.get("inlined_return") and st["k"] == "assign" and st["place"]["l"] in r and not st["place"]["p"] and st["rv"]["k"] == "use":
                             x = st["rv"]["x"].get("move") or st["rv"]["x"].get("copy")
@@ -796,7 +805,10 @@ class Body:
             elif isinstance(pr, dict) and "f" in pr:
                 base = self._field(base, pr["f"], pr.get("name"))
             elif isinstance(pr, dict) and "downcast" in pr:
-                base = ("downcast", base, pr["downcast"], pr.get("name"))
+                if base[0] == "agg" and base[1][0] == "adt" and base[1][2] == pr["downcast"]:
+                    pass          # downcast of a value built as that very variant: the aggregate itself (store-to-load forwarding)
+                else:
+                    base = ("downcast", base, pr["downcast"], pr.get("name"))
             elif isinstance(pr, dict) and "index" in pr:
                 base = ("index", base, self._origin_local(pr["index"], depth + 1, seen))
             elif isinstance(pr, dict) and "cidx" in pr:
@@ -831,6 +843,14 @@ class Body:
             t = d[2]
             dd, rd, ga, fn = callee(t)
             args = [self.origin(a, depth + 1, seen) for a in t["args"]]
+            if dd and dd.endswith("ops::try_trait::Try::branch") and args and args[0][0] == "agg" and args[0][1][0] == "adt":
+                # `?` applied to a value whose variant is known: Ok(v) / Some(v) continue with v, Err / None break
+                adt, vn = args[0][1][1], args[0][1][3]
+                cf = "core::ops::control_flow::ControlFlow"
+                if adt in ("core::result::Result", "core::option::Option") and vn in ("Ok", "Some"):
+                    return ("agg", ("adt", cf, 0, "Continue", ("0",)), list(args[0][2]))
+                if adt in ("core::result::Result", "core::option::Option") and vn in ("Err", "None"):
+                    return ("agg", ("adt", cf, 1, "Break", ("0",)), [args[0]])
             return ("call", dd, rd, args, d[1], ga)
         if d[0] == "yield":
             return ("resume", d[1])
@@ -903,6 +923,100 @@ class Body:
                 else:
                     out.append(("rv", rv["k"]))
         return out
+
+    def alternatives(self, o, depth=0, seen=None):
+        """the origins `o` can stand for when multiply-assigned locals are expanded, with variant projections pushed through:
+        `(phi as Continue.0 as Some.0)` keeps only the alternatives built as Continue(Some(x)) and yields x for them; an
+        alternative built as another variant is infeasible under that projection and is dropped; opaque alternatives (calls)
+        are kept with the projection applied.  `?` on an alternative of known variant is folded like in origin()."""
+        if seen is None:
+            seen = frozenset()
+        if depth > 12 or not isinstance(o, tuple) or not o:
+            return [o]
+        k = o[0]
+        if k == "phi" and isinstance(o[1], int):
+            if o[1] in seen:
+                return []
+            out = []
+            for a in self.phi_alternatives(o[1]):
+                out.extend(self.alternatives(a, depth + 1, seen | {o[1]}))
+            return out
+        if k in ("ref", "deref"):
+            return [(k, a) for a in self.alternatives(o[1], depth + 1, seen)]
+        if k == "call" and (o[1] or "").endswith("ops::try_trait::Try::branch") and o[3]:
+            out = []
+            cf = "core::ops::control_flow::ControlFlow"
+            for a in self.alternatives(o[3][0], depth + 1, seen):
+                if a[0] == "agg" and a[1][0] == "adt" and a[1][1] in ("core::result::Result", "core::option::Option"):
+                    if a[1][3] in ("Ok", "Some"):
+                        out.append(("agg", ("adt", cf, 0, "Continue", ("0",)), list(a[2])))
+                    else:
+                        out.append(("agg", ("adt", cf, 1, "Break", ("0",)), [a]))
+                else:
+                    out.append(("call", o[1], o[2], [a] + list(o[3][1:]), o[4], o[5] if len(o) > 5 else None))
+            return out
+        if k == "call" and (o[1] or "").endswith("FromResidual::from_residual"):
+            # `?` taken on its failure edge: the function's own failure variant (Err(..) / None), payload opaque
+            rd = o[2] or ""
+            if "result::Result" in rd.split(" as ")[0]:
+                return [("agg", ("adt", "core::result::Result", 1, "Err", ("0",)), [o])]
+            if "option::Option" in rd.split(" as ")[0]:
+                return [("agg", ("adt", "core::option::Option", 0, "None", ()), [])]
+            return [o]
+        if k == "downcast":
+            out = []
+            for a in self.alternatives(o[1], depth + 1, seen):
+                if a[0] == "agg" and a[1][0] == "adt":
+                    if a[1][2] == o[2]:
+                        out.append(a)
+                    # else: built as another variant -> infeasible under this downcast
+                else:
+                    out.append(("downcast", a, o[2], o[3]))
+            return out
+        if k == "field":
+            out = []
+            for a in self.alternatives(o[1], depth + 1, seen):
+                if a[0] == "agg" and a[1][0] in ("adt", "tuple") and o[2] < len(a[2]):
+                    out.extend(self.alternatives(a[2][o[2]], depth + 1, seen))
+                else:
+                    out.append(("field", a, o[2], o[3]))
+            return out
+        return [o]
+
+    def derives_via(self, o, call_bb, forbid=None, limit=400):
+        """(found, clean): found = the origin may derive from the result of the call ending call_bb (looking through
+        multiply-assigned locals); clean = the leaf `forbid` (e.g. ('arg', 2)) is not reachable except through that call"""
+        seen_phi = set()
+        found, clean = False, True
+        work = list(self.alternatives(o))
+        n = 0
+        while work and n < limit:
+            x = work.pop()
+            n += 1
+            if not isinstance(x, tuple) or not x:
+                continue
+            if x[0] in ("field", "downcast") and x is not o:
+                ex = self.alternatives(x)
+                if ex != [x]:
+                    work.extend(ex)
+                    continue
+            if x[0] == "call" and len(x) > 4 and x[4] == call_bb:
+                found = True
+                continue
+            if forbid is not None and x == forbid:
+                clean = False
+                continue
+            if x[0] == "phi" and isinstance(x[1], int):
+                if x[1] not in seen_phi:
+                    seen_phi.add(x[1])
+                    work.extend(self.phi_alternatives(x[1]))
+                continue
+            for y in x:
+                if isinstance(y, tuple):
+                    work.append(y)
+                elif isinstance(y, list):
+                    work.extend(z for z in y if isinstance(z, tuple))
+        return found, clean
 
     def may_calls(self, o, limit=200):
         """all call nodes an origin may derive from, looking through multiply-assigned locals (phis)"""
